@@ -995,6 +995,13 @@ class Interp:
                 for _ in range(b):
                     r = r * a
                 return r
+        if isinstance(op, ast.Add) and isinstance(a, SOpaque) and isinstance(b, SOpaque) and a.kind == "Char" and b.kind == "Char":
+            # chr(x) + chr(y): the two-character str made of exactly these characters
+            from .text import SText
+
+            t = SText("str", 2, st.fresh_name("pair"))
+            st.assume(z3.And(t.f(z3.IntVal(0)) == a.e, t.f(z3.IntVal(1)) == b.e))
+            return t
         raise Unsupported(f"binary op {type(op).__name__} on {type(a).__name__}, {type(b).__name__}")
 
     def bitop(self, st, t, a, b):
@@ -1250,6 +1257,8 @@ class Interp:
             if name == "with_traceback":
                 return Method(obj, "with_traceback")
             raise Unsupported(f"exception attribute {name}")
+        if isinstance(obj, SInt) and name == "to_bytes":
+            return Method(obj, name)  # int.to_bytes(1, order): see call_method
         if isinstance(obj, Sym):
             raise Unsupported(f"attribute {name} of {type(obj).__name__}")
         if isinstance(obj, tuple) and name in ("index", "count"):
